@@ -393,10 +393,10 @@ Proof.
 Qed.
 
 (* compute_establishes: after a recomputation no row is dirty and the invariant still holds *)
-Lemma compute_ok : forall p s s' rep, PInv p s (log s) -> compute s = (s', rep) ->
+Lemma compute_v1_ok : forall p s s' rep, PInv p s (log s) -> compute_v1 s = (s', rep) ->
   (forall l, In l (log s') -> clean_ok s' p l) /\ PInv p s' (log s').
 Proof.
-  intros p s s' rep [H1 H2] H. unfold compute in H.
+  intros p s s' rep [H1 H2] H. unfold compute_v1 in H.
   destruct (cloop s [] (log s) cinit []) as [lg rp] eqn:E. inversion H; subst; clear H.
   apply (cloop_ok s p) in E; [|intros l [] | exact H1]. destruct E as [Ha Hb]. cbn [app] in Hb.
   assert (A : forall l, In l (log (set_log s lg)) -> clean_ok (set_log s lg) p l) by (intros l Hin; apply Ha; exact Hin).
@@ -404,6 +404,289 @@ Proof.
   - intros l Hin. destruct (A l Hin) as [_ [Hx|Hx]]; [right; left; exact Hx | right; right; exact Hx].
   - intros k Hk. cbn [log set_log] in Hk. rewrite (has_key_map k (log s) lg Hb) in Hk. apply H2; exact Hk.
 Qed.
+
+
+(* whatever the state of the log, every row the v1 loop leaves is clean *)
+Lemma cloop_clean : forall s todo pre c rp0 lg' rp',
+  (forall l, In l pre -> l_dirty l = false) ->
+  cloop s pre todo c rp0 = (lg', rp') -> forall l, In l lg' -> l_dirty l = false.
+Proof.
+  intros s todo; induction todo as [|l t IH]; intros pre c rp0 lg' rp' Hpre H; cbn [cloop] in H.
+  - inversion H; subst; exact Hpre.
+  - assert (Hpre1 : forall x, l_dirty x = false -> forall y, In y (pre ++ [x]) -> l_dirty y = false).
+    { intros x Hx y Hy. apply in_app_or in Hy as [Hy|[Hy|[]]]; [apply Hpre; exact Hy | subst; exact Hx]. }
+    destruct (selected (pre ++ l :: t) l) eqn:Hsel.
+    + destruct (l_dirty l) eqn:Hd.
+      * destruct (process_dirty s c l) as [l1 c1] eqn:P1.
+        assert (Hd1 : l_dirty l1 = false) by (unfold process_dirty in P1; inversion P1; reflexivity).
+        destruct (N.ltb (l_n l) (l_n l1) && selected (pre ++ l1 :: t) l1).
+        -- destruct (process_clean c1 l1) as [l2 c2] eqn:P2.
+           destruct (process_clean_same _ _ _ _ P2) as [_ [Hd2 _]].
+           eapply IH; [|exact H]. apply Hpre1. congruence.
+        -- eapply IH; [|exact H]. apply Hpre1. exact Hd1.
+      * destruct (process_clean c l) as [l1 c1] eqn:P1.
+        destruct (process_clean_same _ _ _ _ P1) as [_ [Hd1 _]].
+        eapply IH; [|exact H]. apply Hpre1. congruence.
+    + assert (Hd : l_dirty l = false).
+      { destruct (l_dirty l) eqn:Hd; [|reflexivity].
+        rewrite (dirty_selected (pre ++ l :: t) l) in Hsel; [discriminate | apply in_or_app; right; left; reflexivity | exact Hd]. }
+      eapply IH; [|exact H]. apply Hpre1. exact Hd.
+Qed.
+Lemma compute_v1_leaves_nothing_dirty : forall s s' rep, compute_v1 s = (s', rep) -> forall l, In l (log s') -> l_dirty l = false.
+Proof.
+  intros s s' rep H l Hin. unfold compute_v1 in H.
+  destruct (cloop s [] (log s) cinit []) as [lg rp] eqn:L. inversion H; subst; clear H.
+  eapply cloop_clean; [|exact L|exact Hin]. intros x [].
+Qed.
+(* a recomputation reports every dirty row (v1) *)
+Lemma cloop_reports : forall s todo pre c rep lg' rep',
+  cloop s pre todo c rep = (lg', rep') ->
+  (forall k, In k rep -> In k rep') /\ (forall l, In l todo -> l_dirty l = true -> In (lrow_key l) rep').
+Proof.
+  intros s todo; induction todo as [|l t IH]; intros pre c rep lg' rep' H; cbn [cloop] in H.
+  - inversion H; subst. split; [auto | intros l []].
+  - destruct (selected (pre ++ l :: t) l) eqn:Hsel.
+    + destruct (l_dirty l) eqn:Hd.
+      * destruct (process_dirty s c l) as [l1 c1].
+        assert (G : exists pre2 c2, cloop s pre2 t c2 (rep ++ [lrow_key l]) = (lg', rep')).
+        { destruct (N.ltb (l_n l) (l_n l1) && selected (pre ++ l1 :: t) l1).
+          - destruct (process_clean c1 l1) as [l2 c2]. eauto.
+          - eauto. }
+        destruct G as [pre2 [c2 G]]. apply IH in G as [A B]. split.
+        -- intros k Hk. apply A. apply in_or_app; left; exact Hk.
+        -- intros x [Hx|Hx] Hdx; [subst x; apply A; apply in_or_app; right; left; reflexivity | apply B; assumption].
+      * destruct (process_clean c l) as [l1 c1]. apply IH in H as [A B]. split; [exact A|].
+        intros x [Hx|Hx] Hdx; [subst x; congruence | apply B; assumption].
+    + apply IH in H as [A B]. split; [exact A|].
+      intros x [Hx|Hx] Hdx; [|apply B; assumption]. subst x.
+      rewrite (dirty_selected (pre ++ l :: t) l) in Hsel; [discriminate | apply in_or_app; right; left; reflexivity | exact Hdx].
+Qed.
+Lemma compute_v1_reports_all_dirty : forall s s' rep, compute_v1 s = (s', rep) ->
+  forall l, In l (log s) -> l_dirty l = true -> In (lrow_key l) rep.
+Proof.
+  intros s s' rep H l Hin Hd. unfold compute_v1 in H.
+  destruct (cloop s [] (log s) cinit []) as [lg rp] eqn:E. inversion H; subst.
+  apply cloop_reports in E as [_ B]. apply B; assumption.
+Qed.
+
+(* ------------------------------------------------------------------ the same three properties for compute_v2
+   (the model of DailyLogsUpdate::compute with requests/C09-fix-6.diff) *)
+(* ------------------------------------------------------------------ sorting keeps the rows *)
+Lemma chain_insert_In : forall r lg x, In x (chain_insert r lg) <-> x = r \/ In x lg.
+Proof.
+  intros r lg x; induction lg as [|l t IH]; cbn [chain_insert].
+  - cbn; intuition.
+  - destruct (chain_ltb r l); cbn [In]; [intuition|]. rewrite IH. intuition.
+Qed.
+Lemma fold_insert_In : forall (ins : lrow -> list lrow -> list lrow),
+  (forall r lg x, In x (ins r lg) <-> x = r \/ In x lg) ->
+  forall lg acc x, In x (fold_left (fun a r => ins r a) lg acc) <-> In x acc \/ In x lg.
+Proof.
+  intros ins H lg; induction lg as [|r t IH]; intros acc x; cbn [fold_left].
+  - cbn; intuition.
+  - rewrite IH, H. cbn [In]. intuition.
+Qed.
+Lemma chain_sort_In : forall lg x, In x (chain_sort lg) <-> In x lg.
+Proof. intros lg x. unfold chain_sort. rewrite (fold_insert_In chain_insert chain_insert_In). cbn; intuition. Qed.
+Lemma key_sort_In : forall lg x, In x (key_sort lg) <-> In x lg.
+Proof. intros lg x. unfold key_sort. rewrite (fold_insert_In insert_sorted insert_sorted_In). cbn; intuition. Qed.
+Lemma kinsert_k_In : forall k l x, In x (kinsert_k k l) <-> x = k \/ In x l.
+Proof.
+  intros k l x; induction l as [|h t IH]; cbn [kinsert_k].
+  - cbn; intuition.
+  - destruct (key_ltb k h); cbn [In]; [intuition|]. rewrite IH. intuition.
+Qed.
+Lemma ksort_k_In : forall l x, In x (ksort_k l) <-> In x l.
+Proof.
+  intros l x. unfold ksort_k.
+  assert (G : forall l acc, In x (fold_left (fun a k => kinsert_k k a) l acc) <-> In x acc \/ In x l).
+  { induction l0 as [|k t IH]; intros acc; cbn [fold_left]; [cbn; intuition|]. rewrite IH, kinsert_k_In. cbn [In]. intuition. }
+  rewrite G. cbn; intuition.
+Qed.
+
+(* ------------------------------------------------------------------ every dirty row is read *)
+Lemma min_room_acc : forall lg r a,
+  match fold_left (fun a l => if same_room l r && l_dirty l then omin a (l_day l) else a) lg a with
+  | Some m => (forall x, a = Some x -> m <= x) /\
+              (forall l, In l lg -> same_room l r && l_dirty l = true -> m <= l_day l)
+  | None => a = None /\ forall l, In l lg -> same_room l r && l_dirty l = false
+  end.
+Proof.
+  intros lg r; induction lg as [|h t IH]; intro a; cbn [fold_left].
+  - destruct a as [x|]; [split; [intros y Hy; inversion Hy; lia | intros l []] | split; [reflexivity | intros l []]].
+  - specialize (IH (if same_room h r && l_dirty h then omin a (l_day h) else a)).
+    destruct (fold_left _ t _) as [m|].
+    + destruct IH as [Ha Hl]. split.
+      * intros x Hx. destruct (same_room h r && l_dirty h).
+        -- subst a. cbn [omin] in Ha. specialize (Ha _ eq_refl). lia.
+        -- apply Ha; exact Hx.
+      * intros l [Hin|Hin] Hg.
+        -- subst l. rewrite Hg in Ha. destruct a as [x|]; cbn [omin] in Ha; specialize (Ha _ eq_refl); lia.
+        -- apply Hl; assumption.
+    + destruct IH as [Ha Hl]. destruct (same_room h r && l_dirty h) eqn:G.
+      * destruct a; discriminate.
+      * split; [exact Ha|]. intros l [Hin|Hin]; [subst l; exact G | apply Hl; exact Hin].
+Qed.
+Lemma max_room_acc : forall lg r m a,
+  (forall x, a = Some x -> x < m) ->
+  forall p, fold_left (fun a l => if same_room l r && (l_day l <? m) then omax a (l_day l) else a) lg a = Some p -> p < m.
+Proof.
+  intros lg r m; induction lg as [|h t IH]; intros a Ha p Hp; cbn [fold_left] in Hp.
+  - apply Ha; exact Hp.
+  - eapply IH; [|exact Hp]. intros x Hx.
+    destruct (same_room h r && (l_day h <? m)) eqn:G; [|apply Ha; exact Hx].
+    apply andb_true_iff in G as [_ G]. apply Z.ltb_lt in G.
+    destruct a as [y|]; cbn [omax] in Hx; inversion Hx; subst.
+    + specialize (Ha _ eq_refl). lia.
+    + exact G.
+Qed.
+Lemma dirty_selected2 : forall lg l, In l lg -> l_dirty l = true -> selected2 lg l = true.
+Proof.
+  intros lg l Hin Hd. unfold selected2, min_dirty_room.
+  pose proof (min_room_acc lg (l_room l) None) as M.
+  assert (Hs : same_room l (l_room l) = true) by (unfold same_room; apply N.eqb_refl).
+  destruct (fold_left _ lg None) as [m|].
+  - destruct M as [_ M]. assert (Hm : m <= l_day l) by (apply M; [exact Hin | rewrite Hs, Hd; reflexivity]).
+    unfold max_before_room. destruct (fold_left _ lg None) as [p|] eqn:E.
+    + apply (max_room_acc lg (l_room l) m None) in E; [|intros x Hx; discriminate]. apply Z.leb_le. lia.
+    + apply Z.leb_le; exact Hm.
+  - destruct M as [_ M]. specialize (M l Hin). rewrite Hs, Hd in M. discriminate.
+Qed.
+
+(* ------------------------------------------------------------------ the loop *)
+Lemma loop2_props : forall s p rows c rs rep,
+  (forall l, In l rows -> row_ok s p l) -> loop2 s c rows = (rs, rep) ->
+  (forall l', In l' rs -> clean_ok s p l' /\ exists l, In l rows /\ lrow_key l' = lrow_key l) /\
+  (forall l, In l rows -> (exists l', In l' rs /\ lrow_key l' = lrow_key l) \/ (l_dirty l = true /\ content s (lrow_key l) = [])) /\
+  (forall l, In l rows -> l_dirty l = true -> In (lrow_key l) rep).
+Proof.
+  intros s p rows; induction rows as [|l t IH]; intros c rs rep Hok H; cbn [loop2] in H.
+  - inversion H; subst. split; [intros x []|split; intros x []].
+  - assert (Ht : forall x, In x t -> row_ok s p x) by (intros x Hx; apply Hok; right; exact Hx).
+    destruct (l_dirty l) eqn:Hd.
+    + destruct (content s (lrow_key l)) as [|a cnt] eqn:Ec.
+      * destruct (loop2 s (c2enter c l) t) as [rs0 rep0] eqn:E. inversion H; subst; clear H.
+        destruct (IH _ _ _ Ht E) as [A [B C]]. split; [|split].
+        -- intros l' H'. destruct (A l' H') as [X [x [Hx Hk]]]. split; [exact X|]. exists x; split; [right; exact Hx | exact Hk].
+        -- intros x [Hx|Hx]; [subst x; right; split; [exact Hd | exact Ec] | apply B; exact Hx].
+        -- intros x [Hx|Hx] Hdx; [subst x; left; reflexivity | right; apply C; assumption].
+      * destruct (loop2 s _ t) as [rs0 rep0] eqn:E. inversion H; subst; clear H.
+        destruct (IH _ _ _ Ht E) as [A [B C]]. split; [|split].
+        -- intros l' [H'|H'].
+           ++ subst l'. split.
+              ** split; [reflexivity|]. right.
+                 unfold recount, lrow_key. cbn [l_room l_ent l_day l_n l_daily]. fold (lrow_key l). rewrite Ec. reflexivity.
+              ** exists l. split; [left; reflexivity | reflexivity].
+           ++ destruct (A l' H') as [X [x [Hx Hk]]]. split; [exact X|]. exists x; split; [right; exact Hx | exact Hk].
+        -- intros x [Hx|Hx].
+           ++ subst x. left. eexists. split; [left; reflexivity | reflexivity].
+           ++ destruct (B x Hx) as [[l' [Hl Hk]]|R]; [left; exists l'; split; [right; exact Hl | exact Hk] | right; exact R].
+        -- intros x [Hx|Hx] Hdx; [subst x; left; reflexivity | right; apply C; assumption].
+    + destruct (loop2 s _ t) as [rs0 rep0] eqn:E. inversion H; subst; clear H.
+      destruct (IH _ _ _ Ht E) as [A [B C]]. split; [|split].
+      * intros l' [H'|H'].
+        -- subst l'. split.
+           ++ split; [exact Hd|].
+              destruct (Hok l (or_introl eq_refl)) as [X|[X|X]]; [congruence | left; exact X | right; exact X].
+           ++ exists l. split; [left; reflexivity | reflexivity].
+        -- destruct (A l' H') as [X [x [Hx Hk]]]. split; [exact X|]. exists x; split; [right; exact Hx | exact Hk].
+      * intros x [Hx|Hx].
+        -- subst x. left. eexists. split; [left; reflexivity | reflexivity].
+        -- destruct (B x Hx) as [[l' [Hl Hk]]|R]; [left; exists l'; split; [right; exact Hl | exact Hk] | right; exact R].
+      * intros x [Hx|Hx] Hdx; [subst x; congruence | apply C; assumption].
+Qed.
+
+Lemma has_key_In : forall k lg, has_key k lg = true <-> exists l, In l lg /\ lrow_key l = k.
+Proof.
+  intros k lg. unfold has_key. rewrite existsb_exists. split; intros [l [Hin He]]; exists l; split; auto.
+  - apply key_eqb_eq; exact He.
+  - apply key_eqb_eq; exact He.
+Qed.
+
+(* ------------------------------------------------------------------ (1) the three properties of `compute` *)
+Theorem compute_v2_ok : forall p s s' rep, PInv p s (log s) -> compute_v2 s = (s', rep) ->
+  (forall l, In l (log s') -> clean_ok s' p l) /\ PInv p s' (log s').
+Proof.
+  intros p s s' rep [H1 H2] H. unfold compute_v2 in H.
+  destruct (loop2 s c2init (chain_sort (filter (selected2 (log s)) (log s)))) as [rs rp] eqn:E.
+  inversion H; subst; clear H. cbn [log set_log].
+  assert (Hrows : forall l, In l (chain_sort (filter (selected2 (log s)) (log s))) -> row_ok s p l).
+  { intros l Hl. apply (proj1 (chain_sort_In _ _)) in Hl. apply filter_In in Hl as [Hl _]. apply H1; exact Hl. }
+  destruct (loop2_props s p _ _ _ _ Hrows E) as [A [B _]].
+  assert (Hclean : forall l, In l (key_sort (filter (fun l0 => negb (selected2 (log s) l0)) (log s) ++ rs)) -> clean_ok s p l).
+  { intros l Hl. apply (proj1 (key_sort_In _ _)) in Hl. apply in_app_or in Hl as [Hl|Hl].
+    - apply filter_In in Hl as [Hin Hns]. apply negb_true_iff in Hns.
+      assert (Hd : l_dirty l = false).
+      { destruct (l_dirty l) eqn:Hd; [|reflexivity]. rewrite (dirty_selected2 _ _ Hin Hd) in Hns. discriminate. }
+      split; [exact Hd|]. destruct (H1 l Hin) as [X|[X|X]]; [congruence | left; exact X | right; exact X].
+    - apply A; exact Hl. }
+  split; [exact Hclean|]. split.
+  - intros l Hl. destruct (Hclean l Hl) as [_ [X|X]]; [right; left; exact X | right; right; exact X].
+  - intros k Hk. destruct (has_key k (log s)) eqn:Hk0; [|apply H2; exact Hk0].
+    apply has_key_In in Hk0 as [l [Hin Hkl]].
+    assert (Hno : forall x, In x (key_sort (filter (fun l0 => negb (selected2 (log s) l0)) (log s) ++ rs)) -> lrow_key x <> k).
+    { intros x Hx C. assert (T : has_key k (key_sort (filter (fun l0 => negb (selected2 (log s) l0)) (log s) ++ rs)) = true)
+        by (apply has_key_In; exists x; split; assumption). congruence. }
+    destruct (selected2 (log s) l) eqn:Hs.
+    + assert (Hl : In l (chain_sort (filter (selected2 (log s)) (log s)))) by (apply (proj2 (chain_sort_In _ _)); apply filter_In; split; assumption).
+      destruct (B l Hl) as [[l' [Hl' Hk']]|[_ Hc]].
+      * exfalso. apply (Hno l'); [apply (proj2 (key_sort_In _ _)); apply in_or_app; right; exact Hl' | congruence].
+      * right. rewrite <- Hkl. exact Hc.
+    + exfalso. apply (Hno l); [|exact Hkl]. apply (proj2 (key_sort_In _ _)). apply in_or_app; left. apply filter_In. split; [exact Hin | rewrite Hs; reflexivity].
+Qed.
+
+Lemma loop2_reports : forall s rows c rs rep, loop2 s c rows = (rs, rep) ->
+  (forall l, In l rows -> l_dirty l = true -> In (lrow_key l) rep) /\ (forall l', In l' rs -> l_dirty l' = false).
+Proof.
+  intros s rows; induction rows as [|l t IH]; intros c rs rep H; cbn [loop2] in H.
+  - inversion H; subst. split; intros x [].
+  - destruct (l_dirty l) eqn:Hd.
+    + destruct (content s (lrow_key l)) as [|a cnt].
+      * destruct (loop2 s (c2enter c l) t) as [rs0 rep0] eqn:E. inversion H; subst; clear H.
+        destruct (IH _ _ _ E) as [C D]. split; [|exact D].
+        intros x [Hx|Hx] Hdx; [subst x; left; reflexivity | right; apply C; assumption].
+      * destruct (loop2 s _ t) as [rs0 rep0] eqn:E. inversion H; subst; clear H.
+        destruct (IH _ _ _ E) as [C D]. split.
+        -- intros x [Hx|Hx] Hdx; [subst x; left; reflexivity | right; apply C; assumption].
+        -- intros x [Hx|Hx]; [subst x; reflexivity | apply D; exact Hx].
+    + destruct (loop2 s _ t) as [rs0 rep0] eqn:E. inversion H; subst; clear H.
+      destruct (IH _ _ _ E) as [C D]. split.
+      * intros x [Hx|Hx] Hdx; [subst x; congruence | apply C; assumption].
+      * intros x [Hx|Hx]; [subst x; exact Hd | apply D; exact Hx].
+Qed.
+
+Theorem compute_v2_reports_all_dirty : forall s s' rep, compute_v2 s = (s', rep) ->
+  forall l, In l (log s) -> l_dirty l = true -> In (lrow_key l) rep.
+Proof.
+  intros s s' rep H l Hin Hd. unfold compute_v2 in H.
+  destruct (loop2 s c2init (chain_sort (filter (selected2 (log s)) (log s)))) as [rs rp] eqn:E.
+  inversion H; subst; clear H. apply (proj2 (ksort_k_In _ _)).
+  destruct (loop2_reports _ _ _ _ _ E) as [C _]. apply C; [|exact Hd].
+  apply (proj2 (chain_sort_In _ _)). apply filter_In. split; [exact Hin | apply dirty_selected2; assumption].
+Qed.
+
+Theorem compute_v2_leaves_nothing_dirty : forall s s' rep, compute_v2 s = (s', rep) ->
+  forall l, In l (log s') -> l_dirty l = false.
+Proof.
+  intros s s' rep H l Hin. unfold compute_v2 in H.
+  destruct (loop2 s c2init (chain_sort (filter (selected2 (log s)) (log s)))) as [rs rp] eqn:E.
+  inversion H; subst; clear H. cbn [log set_log] in Hin. apply (proj1 (key_sort_In _ _)) in Hin. apply in_app_or in Hin as [Hl|Hl].
+  - apply filter_In in Hl as [Hin Hns]. apply negb_true_iff in Hns.
+    destruct (l_dirty l) eqn:Hd; [|reflexivity]. rewrite (dirty_selected2 _ _ Hin Hd) in Hns. discriminate.
+  - destruct (loop2_reports _ _ _ _ _ E) as [_ D]. apply D; exact Hl.
+Qed.
+
+
+(* ------------------------------------------------------------------ `compute`, whichever version DailyLog.v selects.
+   THE SWITCH (with DailyLog.compute := compute_v2): replace _v1_ by _v2_ in the three proofs below *)
+Lemma compute_ok : forall p s s' rep, PInv p s (log s) -> compute s = (s', rep) ->
+  (forall l, In l (log s') -> clean_ok s' p l) /\ PInv p s' (log s').
+Proof. exact compute_v1_ok. Qed.
+Lemma compute_reports_all_dirty : forall s s' rep, compute s = (s', rep) ->
+  forall l, In l (log s) -> l_dirty l = true -> In (lrow_key l) rep.
+Proof. exact compute_v1_reports_all_dirty. Qed.
+Lemma compute_clean : forall s s' rep, compute s = (s', rep) -> forall l, In l (log s') -> l_dirty l = false.
+Proof. exact compute_v1_leaves_nothing_dirty. Qed.
 
 (* ------------------------------------------------------------------ batches and histories *)
 Definition msg_state (s : state) (m : msg) : state :=
@@ -578,35 +861,10 @@ Theorem compute_leaves_nothing_dirty : forall s evs s' evs',
 Proof.
   intros s evs s' evs' H. unfold exec_batch in H. cbn [fold_left exec_msg] in H.
   destruct (compute s) as [s1 rep] eqn:E. inversion H; subst; clear H.
-  cbn [write_marks fold_left]. unfold compute in E.
-  destruct (cloop s [] (log s) cinit []) as [lg rp] eqn:L. inversion E; subst; clear E.
-  (* every row the loop leaves is clean, whatever the state of the log before *)
-  assert (G : forall todo pre c rp0 lg' rp',
-             (forall l, In l pre -> l_dirty l = false) ->
-             cloop s pre todo c rp0 = (lg', rp') -> forall l, In l lg' -> l_dirty l = false).
-  { induction todo as [|l t IH]; intros pre c rp0 lg' rp' Hpre H; cbn [cloop] in H.
-    - inversion H; subst; exact Hpre.
-    - assert (Hpre1 : forall x, l_dirty x = false -> forall y, In y (pre ++ [x]) -> l_dirty y = false).
-      { intros x Hx y Hy. apply in_app_or in Hy as [Hy|[Hy|[]]]; [apply Hpre; exact Hy | subst; exact Hx]. }
-      destruct (selected (pre ++ l :: t) l) eqn:Hsel.
-      + destruct (l_dirty l) eqn:Hd.
-        * destruct (process_dirty s c l) as [l1 c1] eqn:P1.
-          assert (Hd1 : l_dirty l1 = false) by (unfold process_dirty in P1; inversion P1; reflexivity).
-          destruct (N.ltb (l_n l) (l_n l1) && selected (pre ++ l1 :: t) l1).
-          -- destruct (process_clean c1 l1) as [l2 c2] eqn:P2.
-             destruct (process_clean_same _ _ _ _ P2) as [_ [Hd2 _]].
-             eapply IH; [|exact H]. apply Hpre1. congruence.
-          -- eapply IH; [|exact H]. apply Hpre1. exact Hd1.
-        * destruct (process_clean c l) as [l1 c1] eqn:P1.
-          destruct (process_clean_same _ _ _ _ P1) as [_ [Hd1 _]].
-          eapply IH; [|exact H]. apply Hpre1. congruence.
-      + assert (Hd : l_dirty l = false).
-        { destruct (l_dirty l) eqn:Hd; [|reflexivity].
-          rewrite (dirty_selected (pre ++ l :: t) l) in Hsel; [discriminate | apply in_or_app; right; left; reflexivity | exact Hd]. }
-        eapply IH; [|exact H]. apply Hpre1. exact Hd. }
+  cbn [write_marks fold_left].
   apply forallb_forall. intros rw Hrw. cbn [dump_of d_log set_log log] in Hrw.
   apply in_map_iff in Hrw as [l [Hrw Hin]]. subst rw. unfold raw_of; cbn [rr_dirty].
-  rewrite (G _ _ _ _ _ _ (fun l0 (F : In l0 []) => match F with end) L l Hin). reflexivity.
+  rewrite (compute_clean _ _ _ E l Hin). reflexivity.
 Qed.
 
 (* ------------------------------------------------------------------ encode / decode round trip *)
